@@ -94,6 +94,8 @@ type Scenario struct {
 	// ReplaceCtx (fiber): a handler between the scope middleware and Handle replaces the user context with one that
 	// is not derived from the scope's; the fiber integration also keeps the scope in the request locals
 	ReplaceCtx bool `json:"replacectx"`
+	// NoAbort (gin): the configured error handler answers but does not abort the handler chain
+	NoAbort bool `json:"noabort"`
 }
 
 // outerCtx is the context every incoming request carries (context.Background unless the scenario says the
@@ -287,6 +289,10 @@ func buildGin(sc *Scenario, p godi.Provider) *app {
 		if !sc.DefEH {
 			opts = append(opts, godigin.WithErrorHandler(func(c *ginpkg.Context, err error) {
 				emit(M{"ev": "errh", "rq": rqOf(c.Request.Header), "kind": kindOfErr(err)})
+				if sc.NoAbort {
+					c.Status(500)
+					return
+				}
 				c.AbortWithStatus(500)
 			}))
 		}
